@@ -237,6 +237,7 @@ type c13scenario struct {
 	Name    string
 	Mod     int
 	Bodies  []int
+	Shards  int
 	Bound   int // preemption bound; -1 unbounded
 	MaxExec int
 }
@@ -247,6 +248,8 @@ type schedScenario struct {
 	Tag     string // prefix of violation signatures (module state / scenario class)
 	Bound   int
 	MaxExec int
+	// Shards > 1 splits the schedule tree of this scenario between that many worker processes.
+	Shards int
 	// Fresh returns the thread bodies over a fresh instance and their names.
 	Fresh func() (bodies []func() string, names []string)
 	// Want returns the lone sequential result of every body (each on a fresh instance).
@@ -262,7 +265,7 @@ func init() {
 		for _, sc := range c13scenarios(quick) {
 			sc := sc
 			out = append(out, schedScenario{
-				Name: sc.Name, Tag: strings.SplitN(c13mods[sc.Mod].name, "-", 2)[0], Bound: sc.Bound, MaxExec: sc.MaxExec,
+				Name: sc.Name, Tag: strings.SplitN(c13mods[sc.Mod].name, "-", 2)[0], Bound: sc.Bound, MaxExec: sc.MaxExec, Shards: maxI2(sc.Shards, map[bool]int{true: 8, false: 1}[len(sc.Bodies) > 2]),
 				Fresh: func() ([]func() string, []string) {
 					m := c13mods[sc.Mod].mk()
 					var bs []func() string
@@ -313,10 +316,14 @@ func c13scenarios(quick bool) []c13scenario {
 					sc.MaxExec = 60000
 				}
 				if md.name == "P4-generated-all-kinds" {
+					// about 230 lock operations per thread and 0.1 s per execution: one preemption
+					// in quick; thorough explores two preemptions for String||WriteTo (about 1e5
+					// schedules, split over 16 worker processes).
 					sc.Bound = 1
-					if !quick {
+					if !quick && j == 1 {
 						sc.Bound = 2
-						sc.MaxExec = 40000
+						sc.MaxExec = 400000
+						sc.Shards = 16
 					}
 				}
 				out = append(out, sc)
@@ -370,7 +377,9 @@ type c13replay struct {
 }
 
 func schedFindScenario(id, name string) (schedScenario, bool) {
-	for _, q := range []bool{true, false} {
+	// the scenario of THIS tier first (bounds differ between tiers), the other tier for replays.
+	thorough := argValue("--tier") == "thorough"
+	for _, q := range []bool{!thorough, thorough} {
 		for _, sc := range schedRegistry[id](q) {
 			if sc.Name == name {
 				return sc, true
@@ -472,7 +481,13 @@ func schedWorker(sc schedScenario, only []int) c13result {
 		res.Outcomes = len(outcomes)
 		return res
 	}
-	ex := &sched.Explorer{Bound: sc.Bound, MaxExec: sc.MaxExec}
+	ex := &sched.Explorer{Bound: sc.Bound, MaxExec: sc.MaxExec, OnSkip: func() { rl.Poll() }}
+	if s := argValue("--shard"); s != "" {
+		fmt.Sscanf(s, "%d/%d", &ex.Shard, &ex.Shards)
+		if ex.MaxExec > 0 {
+			ex.MaxExec = ex.MaxExec/ex.Shards + 1
+		}
+	}
 	if err := ex.Explore(mk); err != nil {
 		res.Error = err.Error()
 	}
@@ -535,21 +550,42 @@ func hasArg(name string) bool {
 // spawnWorkers runs one worker subprocess per scenario name (GOMAXPROCS=1, own race log) and
 // returns their JSON results in order.
 func spawnWorkers(id string, names []string, tier string, extra ...string) [][]byte {
-	out := make([][]byte, len(names))
 	run := os.Getenv("VERIF_RUN")
 	if run == "" {
 		run = os.TempDir()
 	}
-	fw.ParallelFor(len(names), func(i int) {
+	type job struct {
+		name  string
+		shard string
+	}
+	var jobs []job
+	for _, n := range names {
+		k := 1
+		if sc, ok := schedFindScenario(id, n); ok && sc.Shards > 1 && len(extra) == 0 {
+			k = sc.Shards
+		}
+		for s := 0; s < k; s++ {
+			sh := ""
+			if k > 1 {
+				sh = fmt.Sprintf("%d/%d", s, k)
+			}
+			jobs = append(jobs, job{n, sh})
+		}
+	}
+	out := make([][]byte, len(jobs))
+	fw.ParallelFor(len(jobs), func(i int) {
 		logp := filepath.Join(run, fmt.Sprintf("race.%s.%d", id, i))
-		args := append([]string{id, "--tier", tier, "--worker", "--scenario", names[i]}, extra...)
+		args := append([]string{id, "--tier", tier, "--worker", "--scenario", jobs[i].name}, extra...)
+		if jobs[i].shard != "" {
+			args = append(args, "--shard", jobs[i].shard)
+		}
 		cmd := exec.Command(os.Args[0], args...)
 		cmd.Env = append(os.Environ(), "GOMAXPROCS=1", "GORACE=halt_on_error=0 log_path="+logp+" history_size=3", "VERIF_RACELOG="+logp, "GOTRACEBACK=single")
 		var so, se bytes.Buffer
 		cmd.Stdout, cmd.Stderr = &so, &se
 		err := cmd.Run()
 		if err != nil && so.Len() == 0 {
-			b, _ := json.Marshal(map[string]string{"scenario": names[i], "error": fmt.Sprintf("worker failed: %v: %s", err, fw.Trunc(se.String(), 2000))})
+			b, _ := json.Marshal(map[string]string{"scenario": jobs[i].name, "error": fmt.Sprintf("worker failed: %v: %s", err, fw.Trunc(se.String(), 2000))})
 			out[i] = b
 			return
 		}
@@ -620,6 +656,7 @@ func c13merge(c *fw.Check, id string, results [][]byte) {
 		Capped   bool   `json:"capped"`
 		Outcomes int    `json:"distinct_outcomes"`
 		MaxLen   int    `json:"max_choice_points"`
+		Shards   int    `json:"worker_processes"`
 	}
 	var rows []row
 	totalOutcomes := 0
@@ -638,7 +675,24 @@ func c13merge(c *fw.Check, id string, results [][]byte) {
 		if r.Bound >= 0 {
 			bs = fmt.Sprint(r.Bound)
 		}
-		rows = append(rows, row{r.Scenario, r.Execs, bs, r.Capped, r.Outcomes, r.MaxLen})
+		merged := false
+		for k := range rows {
+			if rows[k].Scenario == r.Scenario { // another shard of the same scenario
+				rows[k].Execs += r.Execs
+				rows[k].Capped = rows[k].Capped || r.Capped
+				if r.Outcomes > rows[k].Outcomes {
+					rows[k].Outcomes = r.Outcomes
+				}
+				if r.MaxLen > rows[k].MaxLen {
+					rows[k].MaxLen = r.MaxLen
+				}
+				rows[k].Shards++
+				merged = true
+			}
+		}
+		if !merged {
+			rows = append(rows, row{r.Scenario, r.Execs, bs, r.Capped, r.Outcomes, r.MaxLen, 1})
+		}
 		c.DistinctN(int64(r.Execs))
 		c.Step(r.Points)
 		c.Valid(int64(r.Execs))
@@ -673,4 +727,11 @@ func replayC13(c *fw.Check, path string) {
 	c13merge(c, "C13", res)
 	c.Case("replay", "x")
 	c.Case("replay2", "y")
+}
+
+func maxI2(a, b int) int {
+	if a > b {
+		return a
+	}
+	return b
 }
